@@ -92,9 +92,21 @@ Init == /\ m = DeclareAll(InitMgr(NameSeq), Len(NameSeq)) @@ Flags
         /\ h = [k \in Slots |-> 0] /\ last = <<"init">> /\ ok = TRUE
 LedgerOf(hh) == [n \in {Abs(hh[k]) : k \in {j \in Slots : hh[j] # 0}} |->
                    Cardinality({k \in Slots : hh[k] # 0 /\ Abs(hh[k]) = n})]
-Put(k, res) == /\ h[k] = 0
-               /\ m' = [res.s EXCEPT !.ref = Incr(@, res.r)]
+(* first free slot (slots are interchangeable); a full table is overwritten
+   (`u = f(u, v)`: incref the result, decref what the slot held), so that the
+   entry points run on TWO held operands and sifting has levels to move *)
+FirstFree(k) == h[k] = 0 /\ \A j \in Slots : h[j] = 0 => k <= j
+SlotFor(k) == IF \E j \in Slots : h[j] = 0 THEN FirstFree(k) ELSE TRUE
+Put(k, res) == /\ SlotFor(k)
+               /\ m' = [res.s EXCEPT !.ref = IF h[k] = 0 THEN Incr(@, res.r) ELSE Decr(Incr(@, res.r), h[k])]
                /\ h' = [h EXCEPT ![k] = res.r]
+NVs == Len(NameSeq)
+X(k) == VarF(NVs, k)
+DynFunsD == IF NVs = 2 THEN {X(1), X(2), AndF(X(1), X(2)), XorF(X(1), X(2)), OrF(X(1), NotF(NVs, X(2)))}
+            ELSE {X(1), X(NVs), AndF(X(1), X(2)), XorF(X(2), X(3)), IteF(X(1), X(2), X(3)), OrF(X(3), AndF(X(1), X(2)))}
+DynFuns == IF NVs = 2 THEN {X(1), X(2), AndF(X(1), X(2)), XorF(X(1), X(2))}
+           ELSE {X(1), X(NVs), AndF(X(1), X(2)), XorF(X(2), X(3)), IteF(X(1), X(2), X(3)), OrF(X(3), AndF(X(1), X(2)))}
+DoBuild(k, F) == Put(k, BuildTT(m, F)) /\ last' = <<"build", k, F>> /\ ok' = TRUE
 DoVar(k, nm) == Put(k, FindOrAdd(m, LevelOf(m, nm), -1, 1)) /\ last' = <<"var", k, nm>> /\ ok' = TRUE
 DoIte(k, g, u, v) == Put(k, Ite(m, Val(g), Val(u), Val(v))) /\ last' = <<"ite", k, g, u, v>> /\ ok' = TRUE
 DoDrop(k) == /\ h[k] # 0 /\ m' = [m EXCEPT !.ref = Decr(@, h[k])] /\ h' = [h EXCEPT ![k] = 0]
@@ -119,7 +131,7 @@ RunEntry(e, s, g, u, v, a, nm) ==
     [] e = "two" -> Two(s, g, u, v, a)
     [] e = "foa" -> Foa(s, nm)
 DoEntry(k, e) ==
-  /\ h[k] = 0
+  /\ SlotFor(k)
   /\ \E g, u, v, a \in (IF e \in {"ite", "two"} THEN Sym ELSE {<<0, 1>>}) :
      \E nm \in (IF e \in {"var", "fail", "foa"} THEN Names ELSE {NameSeq[1]}) :
        /\ (e = "ite" => a = <<0, 1>>)
@@ -130,14 +142,22 @@ DoEntry(k, e) ==
             IN /\ ok' = good
                /\ last' = <<e, f, g, u, v, a, nm, act.s.signal, act.s.err, act.s.on>>
                /\ IF good /\ e # "fail"
-                  THEN m' = [Disarm(act.s) EXCEPT !.ref = Incr(@, act.r)] /\ h' = [h EXCEPT ![k] = act.r]
+                  THEN /\ m' = [Disarm(act.s) EXCEPT !.ref = IF h[k] = 0 THEN Incr(@, act.r) ELSE Decr(Incr(@, act.r), h[k])]
+                       /\ h' = [h EXCEPT ![k] = act.r]
                   ELSE IF good THEN m' = [Disarm(act.s) EXCEPT !.err = FALSE] /\ UNCHANGED h
                   ELSE UNCHANGED <<m, h>>
 Next == \/ \E k \in Slots, nm \in Names : DoVar(k, nm)
+        \/ \E k \in Slots, F \in DynFuns : DoBuild(k, F)
         \/ \E k \in Slots : \E g, u, v \in Sym : DoIte(k, g, u, v)
         \/ \E k \in Slots, e \in Entries : DoEntry(k, e)
         \/ \E k \in Slots : DoDrop(k)
-Bound == Cardinality(DOMAIN m.succ) <= MaxNodes /\ TLCGet("level") <= MaxDepth
+NextB == TLCGet("level") < MaxDepth /\ Next
+(* quick configurations: operands come from `build` only *)
+NextE == /\ TLCGet("level") < MaxDepth
+         /\ \/ \E k \in Slots, F \in DynFuns : DoBuild(k, F)
+            \/ \E k \in Slots, e \in Entries : DoEntry(k, e)
+            \/ \E k \in Slots : DoDrop(k)
+Bound == Cardinality(DOMAIN m.succ) <= MaxNodes
 InvOK == ok
 InvCanonical == Canonical(m)
 InvRef == RefExact(m, LedgerOf(h))
